@@ -335,6 +335,8 @@ pub struct Sim {
     pub dead_hidden: BTreeSet<(usize, Entity)>,
     /// F22 bookkeeping: (frame label, entity, former owner) of every removed `OwnedBy`
     pub detached: Vec<(usize, Entity, Entity)>,
+    /// `World::clear_trackers` already called by the harness since the last server frame
+    pub trackers_cleared_this_gap: bool,
     pub secrets: BTreeMap<Entity, Vec<[u8; 8]>>,
     pub unmarked_once: BTreeSet<Entity>,
     /// (client, session, server entity): mapped already, to be made visible to its owner later
@@ -521,6 +523,7 @@ impl Sim {
             ever_explicit: default(),
             dead_hidden: default(),
             detached: vec![],
+            trackers_cleared_this_gap: false,
             secrets: default(),
             unmarked_once: default(),
             pending_show: vec![],
@@ -932,6 +935,7 @@ impl Sim {
             self.server.world_mut().resource_mut::<ServerTick>().bypass_change_detection().increment_by(1);
         }
         self.frame_no += 1;
+        self.trackers_cleared_this_gap = false;
         // recipients of server events processed by this frame
         self.resolve_pending_server_events();
         update_app(&mut self.server);
@@ -1640,6 +1644,15 @@ impl Sim {
                 let mut em = self.server.world_mut().entity_mut(e);
                 remove_kind(&mut em, kk);
                 self.mark_struct(e);
+                // a removal performed late in the previous frame (after the replication systems, e.g. in
+                // `Last`): its removal event has already been through one end-of-frame tracker update
+                // when the server looks at it (decided from the seed without touching the random stream)
+                let h = crate::util::fnv64(&[self.seed.to_le_bytes(), (self.frame_no as u64).to_le_bytes(), e.to_bits().to_le_bytes()].concat());
+                if h % 4 == 0 && !self.trackers_cleared_this_gap {
+                    self.trackers_cleared_this_gap = true;
+                    self.server.world_mut().clear_trackers();
+                    self.obs.inc("op_remove_late_in_previous_frame");
+                }
                 self.note(format!("remove {e} {}", KIND_NAMES[kk]));
                 self.obs.inc("op_remove");
             }
